@@ -115,11 +115,11 @@ func ruleKeptIndexHasNoExcludedPack(c *eng.Ctx) {
 			// the argument is the excludePacks parameter of Rewrite (captured)
 			for _, r := range eng.Origins(call.Call.Args[1], nil) {
 				if ld, ok := r.(*ssa.UnOp); ok && ld.Op == token.MUL {
-					if fv, ok := ld.X.(*ssa.FreeVar); ok && fv.Name() == "excludePacks" {
+					if fv, ok := ld.X.(*ssa.FreeVar); ok && eng.LogicalName(fv) == "excludePacks" {
 						return true
 					}
 				}
-				if fv, ok := r.(*ssa.FreeVar); ok && fv.Name() == "excludePacks" {
+				if fv, ok := r.(*ssa.FreeVar); ok && eng.LogicalName(fv) == "excludePacks" {
 					return true
 				}
 			}
